@@ -35,7 +35,8 @@ PROPS = {
     "C12": dict(level="fault_enumeration", evaluations_from_extra="c12_faulted_loads", tests=[T("TestVerifC12", 1, 10, q_shards=16, q_timeout=900, th_timeout=3000)]),
     "C13": dict(tests=[T("TestVerifC13Group", 1500, 20000), T("TestVerifC13Store", 400, 6000, shrinktime="0s"),
                        T("TestVerifC13GroupStress", 25, 200, shrinktime="0s", gomaxprocs=[16, 4, 8, 16])]),
-    "C14": dict(tests=[T("TestVerifC14", 2500, 30000)]),
+    "C14": dict(tests=[T("TestVerifC14", 2500, 30000),
+                       T("TestVerifC14Conc", 150, 2500, shrinktime="0s", gomaxprocs=[16, 4, 8, 16])]),
     "C15": dict(tests=[T("TestVerifC15", 2500, 30000)]),
     "C18": dict(tests=[T("TestVerifC18", 6000, 100000), T("TestVerifC18Loading", 300, 4000, shrinktime="0s"), T("TestVerifC18Builders", 1500, 20000, pkg="."),
                        # the maphash.Comparable hasher (Go >= 1.24) is exercised with the newer toolchain in the thorough tier
